@@ -110,7 +110,7 @@ def has_writer(v, depth=0):
     return False
 
 
-_G = collections.namedtuple('G', 'S SRC Lm Lq LBp MB MBp OB HP HH S0 CL NL DEF WL HW OM REL DW RO SY PL')
+_G = collections.namedtuple('G', 'S SRC Lm Lq LBp MB MBp OB HP HH S0 CL NL DEF WL HW OM REL DW RO SY PL FH')
 
 
 class G(_G):
@@ -259,6 +259,27 @@ class Machine:
                     for r in F.trace(p, c['args'][0]):
                         if r[0] == 'param' and ('minus_lines' in r[2] or 'plus_lines' in r[2]):
                             self.HLH.add(p)
+        # the file-header composer(s): state-machine methods that read both file names and both file events without writing the names
+        self.COMPOSERS = set()
+        self.composer_depth = 0
+        for p in self.BODIES:
+            mir = self.BODIES[p]['mir']
+            if not (mir['arg_count'] >= 1 and 'StateMachine' in mir['locals'][1]):
+                continue
+            flds, wr = set(), set()
+            for blk in mir['blocks']:
+                for st in blk['s']:
+                    if st[0] == 'assign':
+                        for pl in [x for x in st[2][1:] if isinstance(x, dict) and 'l' in x]:
+                            flds |= {pr[3] for pr in pl['p'] if pr[0] == 'field' and pr[2] == SM_ADT}
+                        if st[1]['p']:
+                            wr |= {pr[3] for pr in st[1]['p'] if pr[0] == 'field' and pr[2] == SM_ADT}
+                t = blk['t']
+                if t[0] == 'call':
+                    for r in (t[1]['dest'],):
+                        wr |= {pr[3] for pr in r['p'] if pr[0] == 'field' and pr[2] == SM_ADT}
+            if {'minus_file', 'plus_file', 'minus_file_event', 'plus_file_event'} <= flds and not ({'minus_file', 'plus_file'} & wr):
+                self.COMPOSERS.add(p)
         # entry
         cons = [p for p, b in self.BODIES.items()
                 if b['kind'] == 'AssocFn' and b['mir']['arg_count'] == 2 and 'StateMachine' in b['mir']['locals'][1]
@@ -316,7 +337,7 @@ class Machine:
     def gstr(self, g):
         return ("S=%s SRC=%s LB=%d%s MB=%d%s OB=%d HP=%d HH=%d" % (
             self.SVN.get(g.S, g.S), self.SRCN.get(g.SRC, g.SRC), g.LB, 'p' if g.LBp else '', g.MB, 'p' if g.MBp else '',
-            g.OB, g.HP, g.HH) + (' handled%scurrent' % {'E': '==', 'E0': '==', 'DN': '!=', 'D': '!=', 'U': '?'}[g.REL]))
+            g.OB, g.HP, g.HH) + (' handled%scurrent' % {'E': '==', 'E0': '==', 'DN': '!=', 'D': '!=', 'U': '?'}[g.REL]) + (' FH=1' if g.FH else ''))
 
     def violate(self, rule, fn, what, g, site='', callee='', facet=''):
         """record a rule violation. Stable key (no line numbers): rule, innermost state-machine/painter function,
@@ -378,8 +399,9 @@ class Machine:
                 return False
             if cls.startswith('--- ') and g.SRC != self.SRCV['GitDiff']:
                 return False
-        if cls.startswith('@@') and g.HP == 1:
-            # A8: a section with a pending mode header reaches its first hunk only through `---`/`+++` lines
+        if (cls.startswith('@@') or cls in ('Submodule ', 'Only in ')) and g.HP == 1:
+            # A8: a section with a pending mode header reaches its first hunk only through `---`/`+++` lines; `Submodule` and
+            # `Only in` lines are sections of their own and do not occur inside a section that has mode lines
             return False
         if cls.startswith('@@') and g.S not in self.HUNK_STATES and not (g.PL and g.S == SV['DiffHeader']):
             # A9: the first hunk header of a file section directly follows the `+++` line of that section
@@ -550,10 +572,14 @@ class Machine:
         if path == (HANDLED,):
             # REL in {E0: both None, DN: handled None & current Some (differ), E: equal, U: unknown}
             if val[0] == 'enum' and val[1].endswith('Option') and val[2] == 0:
-                return [g._replace(REL='E0' if g.REL == 'E0' else 'DN')]
+                # the per-section reset: a new file section starts, no header written for it yet
+                return [g._replace(REL='E0' if g.REL == 'E0' else 'DN', FH=0)]
             return [g._replace(REL='U')]
         if path == (CURRENT,):
             if val[0] == 'enum' and val[1].endswith('Option') and val[2] == 1:
+                if g.REL == 'E' and self.grammar and g.SRC == self.SRCV.get('GitDiff'):
+                    # A11: within one section of git output the names on the ---/+++ lines are the names on its rename/copy lines
+                    return [g]
                 return [g._replace(REL='DN' if g.REL in ('E0', 'DN') else 'U')]
             return [g._replace(REL='U')]
         if path in (('minus_file',), ('plus_file',)) and not self.color_only and not self.passthrough:
@@ -745,7 +771,7 @@ class Machine:
             if frm:
                 memo = tuple(kv for kv in memo if kv[0][0] != 'from')
                 self.cur_origin = frm[0][1]
-        key = (path, tuple(argvals), g, memo, self.quiet > 0)
+        key = (path, tuple(argvals), g, memo, self.quiet > 0, self.composer_depth > 0)
         try:
             hash(key)
         except TypeError:
@@ -1316,6 +1342,20 @@ class Machine:
             for (rv, g3, memo3) in outs:
                 res.append((rv, g3._replace(HH=0, HW=0, OM=0), memo3))
             return res
+        if callee in self.COMPOSERS and not self.color_only and not self.passthrough and not self.quiet:
+            # the composed file header of a section
+            self.events['HDR_COMPOSED'] += 1
+            if g.FH and g.SRC == self.SRCV.get('GitDiff'):
+                # only git output delimits its sections (the `diff ` line resets the bookkeeping); for plain `diff -u` input the
+                # guard is a comparison of names, which this analysis does not track
+                self.violate('HDR-TWICE', path, 'a second file header is written for one file section (the header is composed again although one has already been '
+                             'written since the section started)', g, self.F.span_of_call(c), callee, facet='composed')
+            g = g._replace(FH=1 if g.SRC == self.SRCV.get('GitDiff') else 0)
+            self.composer_depth += 1
+            try:
+                return self._descend2(path, c, callee, av, g, memo)
+            finally:
+                self.composer_depth -= 1
         return self._descend2(path, c, callee, av, g, memo)
 
     def _descend2(self, path, c, callee, av, g, memo):
@@ -1470,6 +1510,13 @@ class Machine:
                         g = g._replace(NL=max(g.NL - 1, 0)) if self.color_only else g
                     return [(ret, g, memo)]
             if last == 'mode_info' and callee.endswith(('::truncate', '::clear')):
+                if g.HP and self.composer_depth == 0 and not self.color_only and not self.passthrough:
+                    # a pending mode-change header is written on its own (not as part of the composed file header)
+                    self.events['HDR_PENDING'] += 1
+                    if g.FH and g.SRC == self.SRCV.get('GitDiff'):
+                        self.violate('HDR-TWICE', path, 'a second file header is written for one file section (the pending mode-change header after a header has already '
+                                     'been written for this section)', g, self.F.span_of_call(c), callee, facet='pending')
+                    g = g._replace(FH=1 if g.SRC == self.SRCV.get('GitDiff') else 0)
                 return [(ret, g._replace(HP=0), memo)]
             if last in ('line', 'raw_line') and len(loc) == 2 and callee.endswith(('::push_str', '::push', '::clear', '::truncate', '::insert', '::insert_str', '::replace_range')):
                 return [(ret, g._replace(WL=1), memo)]
@@ -1525,7 +1572,7 @@ class Machine:
     # ------------------------------------------------------------------ driver
     def g0(self):
         return G(S=self.SV['Unknown'], SRC=self.SRCV['Unknown'], Lm=0, Lq=0, LBp=0, MB=0, MBp=0, OB=0, HP=0, HH=0,
-                 S0=self.SV['Unknown'], CL=0, NL=0, DEF=0, WL=0, HW=0, OM=0, REL='E0', DW=0, RO=1, SY=1, PL=0)
+                 S0=self.SV['Unknown'], CL=0, NL=0, DEF=0, WL=0, HW=0, OM=0, REL='E0', DW=0, RO=1, SY=1, PL=0, FH=0)
 
     def analyse_passthrough(self, seeds):
         """from every given line-start state: feed lines that match no marker and no recogniser"""
